@@ -735,7 +735,10 @@ func runC17(c *run.Ctx) {
 		}
 		// ordinary application requests first (arguments of input types with fields left to their defaults, literal and
 		// through variables): answering them must leave the schema exactly as it was loaded
+		drift := ""
 		for _, bk := range []string{"iface", "any"} {
+			// the schema does not change by being used: the complete answer before the requests is the answer after them
+			introBefore := ref.Render(ref.Canon(roots[bk].ResolveString(c17FullQuery, "Full", map[string]interface{}{"dep": true})["data"]))
 			for k := 0; k < 3; k++ {
 				dc := gen.Doc(r, ms, gen.DocOpts{Vars: k%2 == 0, Aliases: true, Depth: 2, MaxSels: 4, MaxOps: 1})
 				text := dc.Doc.Print(model.LayoutN(k))
@@ -747,6 +750,15 @@ func runC17(c *run.Ctx) {
 				run.Protect(func() { _ = roots[bk].ResolveString(text, "", nil) })
 				c.Count("application_requests_before_introspection", 1)
 			}
+			introAfter := ref.Render(ref.Canon(roots[bk].ResolveString(c17FullQuery, "Full", map[string]interface{}{"dep": true})["data"]))
+			c.Count("introspection_answers_compared_before_and_after_requests", 1)
+			if introAfter != introBefore && drift == "" {
+				drift = bk + ": " + firstDiffLong(introBefore, introAfter)
+			}
+		}
+		if drift != "" {
+			c.Violation("c17-answer-changed-by-requests", map[string]interface{}{"sdl": sdl, "diag": "the full introspection answer differs before and after ordinary application requests on the same root: " + drift})
+			continue
 		}
 		rep := func(kind, diag string, extra map[string]interface{}) {
 			m := map[string]interface{}{"sdl": sdl, "diag": diag}
